@@ -2,5 +2,7 @@
 
 package eventbus
 
-// verifYield is a no-op unless built with the "verif" tag.
-func verifYield(point string, h *internalHandler) {}
+// verifYield and verifSpawn are no-ops unless built with the "verif" tag.
+func verifYield(point string, h *internalHandler, n uint64) {}
+
+func verifSpawn(h *internalHandler) uint64 { return 0 }
